@@ -156,3 +156,27 @@ func VxC05_Formulas() {
 	vx.Assert(vx.Close(n.CDF(z), math.Erfc(-(z-mu)/(sigma*math.Sqrt2))/2, 1e-9, 1e-12), "the normal CDF is erfc(-(x-Mu)/(Sigma sqrt 2))/2")
 	vx.Assert(vx.Close(n.PDF(z), math.Exp(-(z-mu)*(z-mu)/(2*sigma*sigma))*invSqrt2Pi/sigma, 1e-9, 1e-300), "the normal PDF is exp(-(x-Mu)^2/(2 Sigma^2))/(Sigma sqrt(2 pi))")
 }
+
+// VxC05_InvCDFPoints: CDF(InvCDF(p)) = p to 1e-9 relative at the branch points of the rational
+// approximation and deep in both tails. These are concrete evaluations carried by the interpreter
+// (special values, as NaN and the infinities are elsewhere): no quantification over p is claimed -
+// the accuracy of erfc/log/exp compositions has no SMT theory (DESIGN 6).
+// C05: "NormalDist.InvCDF inverts CDF (CDF(InvCDF(p))=p to 1e-9 relative for 0<p<1".
+//
+//vx:mode FP
+//vx:bound p in {1e-300, 1e-200, 1e-100, 1e-50, 1e-20, 1e-12, 1e-8, 1e-4, just below / at / just above 0.02425 and 0.97575, 0.3, 0.5, 0.7, 1-1e-4, 1-1e-8, 1-1e-12}; (Mu, Sigma) in {(0,1), (2,5), (-3,1/64)} (|Mu|/Sigma moderate: with |Mu|/Sigma ~ 1e12 the spacing of float64 around Mu exceeds 1e-9 Sigma and no x can meet the tolerance)
+//vx:outside every other p (no quantification: concrete special values only)
+func VxC05_InvCDFPoints() {
+	ps := []float64{1e-300, 1e-200, 1e-100, 1e-50, 1e-20, 1e-12, 1e-8, 1e-4, 0.024249999, 0.02425, 0.024250001,
+		0.3, 0.5, 0.7, 0.975749999, 0.97575, 0.975750001, 1 - 1e-4, 1 - 1e-8, 1 - 1e-12}
+	k := vx.Choose("dist", 0, 2)
+	n := []NormalDist{{0, 1}, {2, 5}, {-3, 0.015625}}[k]
+	prev := math.Inf(-1)
+	for _, p := range ps {
+		x := n.InvCDF(p)
+		back := n.CDF(x)
+		vx.Assert(math.Abs(back-p) <= 1e-9*p, "CDF(InvCDF(p)) = p to 1e-9 relative")
+		vx.Assert(prev <= x, "InvCDF is non-decreasing over the special points")
+		prev = x
+	}
+}
